@@ -19,3 +19,5 @@ def run(prog, rep):
     r_order.run_name_first(prog, rep)
     from ..rules import r_bfs as _rb
     _rb.run_filters(prog, rep)
+    from ..rules import r_order as _ro2
+    _ro2.run_attr_search(prog, rep)
